@@ -101,50 +101,103 @@ def r1_child_discovery(a, tier):
     return rep
 
 
+def _forests(n):
+    """all ordered forests with n nodes, as nested tuples"""
+    if n == 0:
+        yield ()
+        return
+    for k in range(1, n + 1):  # size of the first tree
+        for first_kids in _forests(k - 1):
+            for rest in _forests(n - k):
+                yield (first_kids, *rest)
+
+
+def _shape_text(kids) -> str:
+    return '(' + ''.join(_shape_text(k) for k in kids) + ')'
+
+
 def r2_traversals(a, tier):
+    from ..modelinterp import Hook, ModelInterp, Stub
+    nmax = 6 if tier == 'thorough' else 5
     rep = RuleReport(
         'C07.R2',
-        'the tree walkers visit children: DepthFirstWalker, BreadthFirstWalker and PostOrderDepthFirstWalker each iterate '
-        'self.children_of(<visited node>) for every node they visit and recurse into / queue every child; children_of returns '
-        'node.children()',
-        floor=4,
+        f'the tree walkers visit children: DepthFirstWalker, BreadthFirstWalker and PostOrderDepthFirstWalker, interpreted on EVERY '
+        f'ordered tree with up to {nmax} nodes (children supplied by node.children()), apply the walk_* dispatch (super().walk) to every '
+        f'node exactly once, in pre-order, level order and post-order respectively; children_of returns node.children()',
+        floor=60,
     )
     w = 'tatsu.walkers'
     specs = [
-        (f'{w}.DepthFirstWalker.iter_depthfirst', 'recursive'),
-        (f'{w}.PostOrderDepthFirstWalker.iter_postdepthfirst', 'recursive'),
-        (f'{w}.BreadthFirstWalker.iter_breadthfirst', 'queue'),
+        (f'{w}.DepthFirstWalker', 'iter_depthfirst', 'pre'),
+        (f'{w}.PostOrderDepthFirstWalker', 'iter_postdepthfirst', 'post'),
+        (f'{w}.BreadthFirstWalker', 'iter_breadthfirst', 'level'),
     ]
-    for q, kind in specs:
-        fn = a.p.func(q)
-        nodes = list(ast.walk(fn.node))
-        node_param = fn.params[1] if len(fn.params) > 1 else 'node'
-        co = [n for n in nodes if isinstance(n, ast.Call) and dotted(n.func) == 'self.children_of']
-        ok = bool(co)
-        detail = ''
-        if kind == 'recursive':
-            loops = [n for n in nodes if isinstance(n, ast.For) and isinstance(n.iter, ast.Call) and dotted(n.iter.func) == 'self.children_of']
-            ok = ok and any(norm(lp.iter.args[0]) == node_param for lp in loops if lp.iter.args) and any(
-                isinstance(x, ast.YieldFrom) and isinstance(x.value, ast.Call) and dotted(x.value.func) == f'self.{fn.name}'
-                and x.value.args and norm(x.value.args[0]) == norm(lp.target) for lp in loops for x in ast.walk(lp))
-            detail = 'for child in self.children_of(node): yield from self.<same>(child)'
-        else:
-            ok = ok and any(isinstance(n, ast.Call) and dotted(n.func) == 'self.queue.extend' and n.args and isinstance(n.args[0], ast.Call)
-                            and dotted(n.args[0].func) == 'self.children_of' for n in nodes) and any(
-                isinstance(n, ast.While) and norm(n.test) == 'self.queue' for n in nodes)
-            detail = 'while self.queue: ...; self.queue.extend(self.children_of(nd))'
-        visits = any(isinstance(n, ast.Yield) and isinstance(n.value, ast.Call) and dotted(n.value.func) == 'super().walk' for n in nodes)
-        rep.add({'walker': q, 'shape': detail, 'visits_children_of_every_node': ok, 'applies_walk_to_each_node': visits})
-        if not ok:
-            rep.fail(q, 'children-not-visited', f'{fn.name} does not traverse self.children_of(<node>) for every visited node ({detail})', fn.loc)
-        if not visits:
-            rep.fail(q, 'node-not-visited', f'{fn.name} does not apply the walk_* dispatch (super().walk) to each node', fn.loc)
-    co = a.p.func(f'{w}.NodeWalker.children_of')
-    rets = [norm(r.value) for r in walk_no_defs(co.node) if isinstance(r, ast.Return) and r.value is not None]
-    ok = any(r == f'{co.params[1]}.children()' for r in rets)
-    rep.add({'children_of_returns': rets, 'ok': ok})
-    if not ok:
-        rep.fail(co.qualname, 'children_of', 'NodeWalker.children_of does not return node.children()', co.loc)
+
+    class DQ(list):
+        pass
+
+    def build(shape, counter, nodes):
+        """shape = tuple of child shapes; returns the stub node"""
+        tag = counter[0]
+        counter[0] += 1
+        me = Stub('tatsu.objectmodel.node.Node', tag=tag)
+        nodes.append(me)
+        kids = [build(c, counter, nodes) for c in shape]
+        me._attrs['children'] = Hook(lambda kids=kids: list(kids))
+        me._attrs['kids'] = kids
+        return me
+
+    def order(root, kind):
+        if kind == 'pre':
+            return [root._attrs['tag']] + [t for k in root._attrs['kids'] for t in order(k, kind)]
+        if kind == 'post':
+            return [t for k in root._attrs['kids'] for t in order(k, kind)] + [root._attrs['tag']]
+        out, q = [], [root]
+        while q:
+            nd = q.pop(0)
+            out.append(nd._attrs['tag'])
+            q.extend(nd._attrs['kids'])
+        return out
+
+    for cls_q, mname, kind in specs:
+        fn = a.p.func(f'{cls_q}.{mname}')
+        n_bad = 0
+        for n in range(1, nmax + 1):
+            for kids_shape in _forests(n - 1):
+                nodes: list = []
+                root = build(kids_shape, [0], nodes)
+                visited: list = []
+
+                class _I(ModelInterp):
+                    def call(self, e, env, visited=visited):
+                        f = e.func
+                        if isinstance(f, ast.Attribute) and f.attr == 'walk' and isinstance(f.value, ast.Call) \
+                                and isinstance(f.value.func, ast.Name) and f.value.func.id == 'super':
+                            args, _kw = self._args(e, env)
+                            visited.append(args[0]._attrs['tag'] if isinstance(args[0], Stub) else args[0])
+                            return ('visited', visited[-1])
+                        return super().call(e, env)
+                it = _I(a, {'deque': Hook(lambda x=(): DQ(x))})
+
+                def methods(recv, name, args, kwargs):
+                    if isinstance(recv, DQ) and name == 'popleft':
+                        return recv.pop(0)
+                    return NotImplemented
+                it.methods = methods
+                me = Stub(cls_q, queue=None)
+                try:
+                    it.apply(it.get_attr(me, mname), [root], {})
+                except Unsupported as e:
+                    raise AnalysisError(f'cannot interpret {fn.qualname}: {e}') from e
+                want = order(root, kind)
+                ok = visited == want
+                rep.add({'walker': fn.qualname, 'tree': _shape_text(kids_shape), 'visited': visited, 'expected': want, 'ok': ok})
+                if not ok and n_bad < 4:
+                    n_bad += 1
+                    missing = sorted(set(want) - set(visited))
+                    rep.fail(fn.qualname, f'traversal:{_shape_text(kids_shape)}', f'{fn.name} on the tree {_shape_text(kids_shape)} (nodes numbered in '
+                             f'pre-order) applies the walk_* dispatch to {visited}; required {want} ({kind}-order, every node once)'
+                             + (f' - nodes {missing} are never visited' if missing else ''), fn.loc)
     return rep
 
 
